@@ -276,7 +276,10 @@ def build_case(chk, rng, it):
         qdeg = rng.choice([2 * d, 2 * d + 1, 2 * d + 3])
     coefs = rand_coefs(rng, manufactured)
     mv = mvals(N)
-    style = rng.choice(['none', 'all_l', 'all_u', 'qn', 'random', 'random', 'both'])
+    style = rng.choice(['none', 'all_l', 'all_u', 'qn', 'random', 'random', 'both', 'asym', 'asym'])
+    if style == 'asym' and N < 3:
+        N = rng.randint(3, 7)
+        mv = mvals(N)
     if manufactured:
         style = rng.choice(['none', 'all_l', 'all_u', 'both'])
     extra = [rng.randint(8, 12), -9]
@@ -290,6 +293,13 @@ def build_case(chk, rng, it):
         lneu, uneu = [0], []
     elif style == 'both':
         lneu, uneu = list(mv), list(mv)
+    elif style == 'asym':
+        # boundary choices that are NOT symmetric in +-m: mode +m Neumann at one end, mode -m at the other (or only one of them)
+        pos = [m for m in mv if m > 0 and -m in mv]
+        m = rng.choice(pos) if pos else 0
+        lneu, uneu = ([m], [-m]) if rng.random() < 0.6 else ([m], [])
+        if rng.random() < 0.5:
+            lneu, uneu = uneu, lneu
     else:
         lneu = [m for m in mv if rng.random() < 0.4] + ([rng.choice(extra)] if rng.random() < 0.3 else [])
         uneu = [m for m in mv if rng.random() < 0.4] + ([rng.choice(extra)] if rng.random() < 0.3 else [])
@@ -363,7 +373,13 @@ def run_solver(cs, S, rho_global, rho_func=None, want_attrs=True, float_lists=Fa
     return MPI.run(int(np.prod(nprocs)), body, policy='random', seed=cs['seed'] & 0xffff)
 
 
+class RealCodeRaised(Exception):
+    """the real solver raised on a legal configuration inside one of the follow-up oracle runs"""
+
+
 def gather_phi(res, shape):
+    if not res.ok:
+        raise RealCodeRaised(str(res.first_error())[:300])
     out = np.full(shape, np.nan, dtype=complex)
     for o in res.values():
         s = o['starts']
@@ -577,7 +593,10 @@ def one_case(chk, drv, it, stats):
 
     # ---------- oracle on the real output (numpy dense assembly)
     oracle_checks(chk, cs, desc, oa, Vc, rho_g, phi_g, rho_func, mv, lset, uset, stats, phi_star, fns[4])
-    more_oracles(chk, cs, S, desc, rho_g, rho_func, phi_g, oa, mv, lset, uset, nprng, it)
+    try:
+        more_oracles(chk, cs, S, desc, rho_g, rho_func, phi_g, oa, mv, lset, uset, nprng, it)
+    except RealCodeRaised as e:
+        chk.fail('C14:solve-raises', 'the solver raised on a well-posed configuration (second call / other right-hand side): %s' % e, desc)
     nontriv = (len(lset) + len(uset) > 0) or len(cs['coefs']) > 0
     chk.case(('solve', d, cs['ncells'], N, nz, cs['qdeg'], tuple(cs['lneu']), tuple(cs['uneu']),
               tuple(sorted((k, v[0]) for k, v in cs['coefs'].items())), cs['func_rhs'], tuple(cs['nprocs'])),
